@@ -10,7 +10,7 @@
    addresses; [saved_bytes s i] are the bytes the save command writes for transfer number i; [s_fs s] is the
    file system (path -> content); [s_pub s] the published tree items. *)
 From Coq Require Import List NArith Bool.
-From AdltV Require Import Base.Res Base.MachInt FileTransfer.Ft FileTransfer.FtProofs FileTransfer.FtRecover Exec.C17.
+From AdltV Require Import Base.Res Base.MachInt FileTransfer.Ft FileTransfer.FtProofs FileTransfer.FtRecover FileTransfer.FtSave Exec.C17.
 Import ListNotations.
 Open Scope N_scope.
 
@@ -98,6 +98,33 @@ Theorem C17_stored_equals_counted : forall c fs ms s rets i t,
      (forall p, t_saved t = Some p -> exists d, lookup_path p (s_fs s) = Some d /\ lenN d = t_size t) /\
      (t_data t = [] \/ lenN (t_data t) = t_size t)).
 Proof. exact stored_equals_counted. Qed.
+
+(* (2s) The save command (apply_command "save", the entry point of the remote plugin_cmd) in the file system it runs in.
+   File-system interface (Ft.v): File::create truncates, so a successful save makes the WHOLE content of the path
+   the data; [cr] is the oracle "create + write succeed at p".  After ANY log and for ANY prior file system [fs]
+   (the target absent, empty, shorter, longer, an earlier save of another transfer ...): a save reported successful
+   leaves exactly the packages 1..n of a Complete transfer at p (one binding, nothing of the old content), every
+   other path untouched; a save reported failed changes nothing. *)
+Theorem C17_save_writes_exact : forall c fs ms s rets cr i p s',
+  run c (init_st fs) ms = Ok (s, rets) -> save_cmd cr s i p = (s', true) ->
+  exists t pk, nth_error (s_transfers s) i = Some t /\ t_state t = Complete /\
+    sublist pk (ops_for c (t_key t) ms) /\ map fst pk = nums 1 (length pk) /\
+    t_size t = lenN (concat (map snd pk)) /\
+    lookup_path p (s_fs s') = Some (concat (map snd pk)) /\
+    (forall q x, In (q, x) (s_fs s') -> q = p -> x = concat (map snd pk)) /\
+    (forall q, q <> p -> lookup_path q (s_fs s') = lookup_path q (s_fs s)).
+Proof. exact save_writes_exact. Qed.
+
+Theorem C17_save_refused_changes_nothing : forall cr s i p s',
+  save_cmd cr s i p = (s', false) -> s' = s.
+Proof. intros cr s i p s' H. exact (proj2 (save_cmd_spec cr s i p s' false H) eq_refl). Qed.
+
+(* the content after a successful save is independent of the prior content of the path (and of the rest of the file system) *)
+Theorem C17_save_independent_of_prior_content : forall s1 s2 i p s1' s2' b2,
+  s_completed s1 = s_completed s2 ->
+  save_cmd true s1 i p = (s1', true) -> save_cmd true s2 i p = (s2', b2) ->
+  b2 = true /\ lookup_path p (s_fs s1') = lookup_path p (s_fs s2').
+Proof. exact save_independent_of_prior_content. Qed.
 
 (* the save command only delivers data of transfers that are Complete *)
 Theorem C17_saved_only_complete : forall c fs ms s rets i d,
@@ -221,6 +248,9 @@ Print Assumptions C17_recovered_complete_exact.
 Print Assumptions C17_complete_implies_exact.
 Print Assumptions C17_complete_needs_every_package.
 Print Assumptions C17_stored_equals_counted.
+Print Assumptions C17_save_writes_exact.
+Print Assumptions C17_save_refused_changes_nothing.
+Print Assumptions C17_save_independent_of_prior_content.
 Print Assumptions C17_saved_only_complete.
 Print Assumptions C17_published_states_current.
 Print Assumptions C17_autosave_confined.
